@@ -4,5 +4,6 @@ CONSTANTS
   MaxIntr = 2
   MaxFault = 1
   Helpers = {"read_exact", "read_exact_at", "read_to_end", "read_to_end_at", "read_vectored_exact", "read_vectored_exact_at", "append", "take", "bufreader", "bufreader_fill", "take_fill", "copy", "write_all", "write_all_at", "write_vectored_all", "write_vectored_all_at", "bufwriter"}
+  Fixed = {"read_to_end_appends", "bufreader_cap0", "copy_cap0", "bufwriter_accept", "read_vectored_at_clamp", "vec_write_vectored", "vec_write_vectored_at"}
 SPECIFICATION FairSpec
 PROPERTY Termination
